@@ -487,6 +487,38 @@ func c01Scenario(t *testing.T, o *vOut, seed int64, maxN, scIdx int) {
 				}
 			}
 		}
+		// (1b) no issuer call begins after a complete save of a fresh bundle (three successful
+		// stores following a successful issuer call of the same request) — judged on the raw logs
+		freshAt := int64(-1)
+		if initial == "fresh" {
+			freshAt = 0
+		}
+		for _, c := range calls {
+			if c.Err != "" {
+				continue
+			}
+			n := 0
+			for _, op := range ops {
+				if op.Req == c.Req && op.Seq > c.End && op.Kind == "Store" && op.Out == "ok" {
+					n++
+					if n == 3 {
+						if freshAt < 0 || op.Seq < freshAt {
+							freshAt = op.Seq
+						}
+						break
+					}
+				} else if op.Req == c.Req && op.Seq > c.End && (op.Kind == "Unlock" || (op.Kind == "Store" && op.Out != "ok")) {
+					break
+				}
+			}
+		}
+		if freshAt >= 0 {
+			for _, c := range calls {
+				if c.Begin > freshAt {
+					o.Mon("C01 issuance-after-fresh-save", map[string]any{"seed": seed, "req": c.Req, "initial": initial})
+				}
+			}
+		}
 		// (2) every issuer call was for the canonical subject
 		for _, c := range calls {
 			if len(c.Names) != 1 || c.Names[0] != canon {
